@@ -9,7 +9,7 @@
    and in fresh interpreters) and jit on/off agreement are run-time facts: tested by checks/C17.py, labelled tests. *)
 From Coq Require Import String.
 From Coq Require Import Reals ZArith Bool Lra List.
-From MellonV Require Import PyVal OptSem C17Tables OptThm AInference AInferenceThm.
+From MellonV Require Import PyVal OptSem C17Tables OptThm ALists AInference AInferenceThm AConvexThm.
 Import ListNotations.
 Open Scope list_scope.
 
@@ -112,8 +112,37 @@ Theorem C17_likelihood_term_unique_max : forall (lgam : R -> R) r d l,
 Proof. exact nn_term_max_unique. Qed.
 Print Assumptions C17_likelihood_term_unique_max.
 
-(* PARTIAL.  Full statement: the objective z |-> |z|^2/2 + sum_i exp(L_i z + c_i) - sum_i (L_i z + mu) + const is
-   strictly convex on R^k (unique minimiser).  Proved: the scalar core - quadratic prior + exp(affine) - affine. *)
+(* The objective of the density estimators (generated [loss] with the generated affine [transform]) is strictly - in
+   fact 1-strongly - convex on R^k: quadratic prior + exp(affine) - affine.  Hence at most one minimiser, and a point
+   whose loss is within eps of the minimum is within sqrt(2 eps) of the minimiser (thm/AConvexThm.v). *)
+Theorem C17_loss_strictly_convex : forall (lgam : R -> R) k r d mu L z w t,
+  length z = length w -> z <> w -> (0 < t < 1)%R ->
+  (loss lgam k r d (transform mu L) (lincomb t z w)
+   < t * loss lgam k r d (transform mu L) z + (1 - t) * loss lgam k r d (transform mu L) w)%R.
+Proof. exact loss_strictly_convex. Qed.
+Print Assumptions C17_loss_strictly_convex.
+
+Theorem C17_loss_strongly_convex : forall (lgam : R -> R) k r d mu L z w t,
+  length z = length w -> (0 <= t <= 1)%R ->
+  (loss lgam k r d (transform mu L) (lincomb t z w)
+   <= t * loss lgam k r d (transform mu L) z + (1 - t) * loss lgam k r d (transform mu L) w
+      - (1 / 2) * t * (1 - t) * sqdist z w)%R.
+Proof. exact loss_strongly_convex. Qed.
+Print Assumptions C17_loss_strongly_convex.
+
+Theorem C17_loss_minimiser_unique : forall (lgam : R -> R) k r d mu L n z w,
+  is_minimiser (loss lgam k r d (transform mu L)) n z ->
+  is_minimiser (loss lgam k r d (transform mu L)) n w -> z = w.
+Proof. exact loss_minimiser_unique. Qed.
+Print Assumptions C17_loss_minimiser_unique.
+
+Theorem C17_loss_quadratic_growth : forall (lgam : R -> R) k r d mu L n z w,
+  is_minimiser (loss lgam k r d (transform mu L)) n z -> length w = n ->
+  (loss lgam k r d (transform mu L) z + (1 / 2) * sqdist z w <= loss lgam k r d (transform mu L) w)%R.
+Proof. exact loss_quadratic_growth. Qed.
+Print Assumptions C17_loss_quadratic_growth.
+
+(* the scalar core, kept from the first delivery *)
 Theorem C17_loss_strictly_convex_partial : forall a b c x y t, x <> y -> (0 < t < 1)%R ->
   (loss_core a b c (t * x + (1 - t) * y) < t * loss_core a b c x + (1 - t) * loss_core a b c y)%R.
 Proof. exact loss_strictly_convex_partial. Qed.
